@@ -6,6 +6,7 @@
 package main
 
 import (
+	"golang.org/x/tools/go/ssa"
 	"encoding/json"
 	"fmt"
 	"os"
@@ -66,6 +67,15 @@ func main() {
 					}
 				}
 			}
+		}
+		return
+	case "blocks":
+		c := newCtx("dev", "quick")
+		c.Load("./...")
+		fn := c.Fn(os.Args[2])
+		f := c.Facts(fn)
+		for _, b := range fn.Blocks {
+			fmt.Printf("block %d (%s) states=%d preds=%v succs=%v last=%s\n", b.Index, b.Comment, len(f.in[b]), idxs(b.Preds), idxs(b.Succs), b.Instrs[len(b.Instrs)-1])
 		}
 		return
 	case "conv":
@@ -134,4 +144,13 @@ func dumpCmd(args []string) {
 			fmt.Println("     ", l)
 		}
 	}
+}
+
+
+func idxs(bs []*ssa.BasicBlock) []int {
+	var out []int
+	for _, b := range bs {
+		out = append(out, b.Index)
+	}
+	return out
 }
